@@ -120,4 +120,11 @@ def run_parallel(clause, modname, fname, cases, chunk=2000, max_violations=50):
                 if len(clause.samples) < 4:
                     pass
                 clause.violation(key, what, func_name, args)
+            if len(clause.violations) >= max_violations:
+                # the clause is decided (the check exits 1 with these replay records): the remaining cases are not
+                # run -- on a tree where every failing case costs a time-out this keeps the check within minutes.
+                # Never taken on a tree that holds the property (no violation is recorded there).
+                clause.stopped_early = True
+                pool.terminate()
+                break
     return clause
